@@ -320,12 +320,14 @@ def main(argv=None) -> int:
         pending = set()
         it = iter(enumerate(chunks))
         exhausted = False
+        budget_truncated = False
 
         def submit_more():
-            nonlocal exhausted
+            nonlocal exhausted, budget_truncated
             while not exhausted and len(pending) < jobs * 2:
                 if time.time() - t0 > budget:
                     exhausted = True
+                    budget_truncated = True
                     break
                 try:
                     ci, ch = next(it)
@@ -446,7 +448,12 @@ def main(argv=None) -> int:
     req = getattr(eng, "REQUIRED_PROBES", {}).get(tier, []) if isinstance(getattr(eng, "REQUIRED_PROBES", None), dict) else []
     starving = [p for p in req if counters.get(p, 0) == 0]
     if starving and not stopped_early:
-        degraded.append(f"probes never hit: {starving}")
+        if budget_truncated and evaluations > 0:
+            # a slow or loaded machine reached the wall-clock budget before the planned runs were done: what was explored held;
+            # the shortfall is reported (and recorded in the evidence), it is not a failure of the tree
+            print(f"NOTE: wall-clock budget reached after {evaluations} of {n_runs} planned runs; probes not reached in this shortened batch: {starving}")
+        else:
+            degraded.append(f"probes never hit: {starving}")
 
     # ---- evidence
     desc = getattr(eng, "DESCRIBE", {})
@@ -481,6 +488,9 @@ def main(argv=None) -> int:
                 "real_components": desc.get("real", []),
                 "stubbed_components": desc.get("stub", []),
                 "stopped_early": stopped_early,
+                "planned_runs": n_runs,
+                "stopped_by_budget": bool(budget_truncated),
+                "required_probes_not_reached": starving,
                 "exhaustive": False,
             },
             "assumptions": desc.get("assumptions", []),
